@@ -131,16 +131,20 @@ theorem scale_sparse_untouched (sd : List Rat → Rat) (cfg : Cfg) (rows : List 
               scale_sparse_keys' sd cfg rows first hfirst h0⟩,
    fun h0 => scale_sparse_rejects' sd cfg rows (by intro h; simp [h] at hfirst) h0⟩
 
-/-- the three kinds of context agree: scalar contexts behave as dense contexts with one feature, and a
+/-- the three kinds of context agree: scalar contexts behave as dense contexts with one feature (phase 3: stated for
+streams whose first context is not a string — with the exact model of windows holding strings the scalar path, which
+always fits, and the dense path, which takes its potential keys from the first context, differ on a MIXED column that
+starts with a string: see `scale_scalar_dense_mixed_counterexample`; the earlier hypothesis `using ≠ 0` is no longer
+needed), and a
 sparse context behaves as its dense embedding (absent key = 0) on every key -/
 theorem scale_containers_agree (sd : List Rat → Rat) (cfg : Cfg) :
-    (∀ rows : List Val, cfg.usingN ≠ some 0 →
+    (∀ rows : List Val, (∀ v0, rows.head? = some v0 → v0.isStr = false) →
       scaleDense sd cfg (rows.map (fun v => [v])) = (scaleScalar sd cfg rows).map (fun v => [v])) ∧
     (∀ (rows : List SCtx) (first : SCtx) (keys : List String) (i j : Nat) (k : String) (v : Val),
       rows.head? = some first → cfg.shift = .num 0 → keys[j]? = some k → sparseCell rows i k = some v →
       ∃ outs, scaleSparse sd cfg rows = .ok outs ∧
         sparseCell outs i k = denseCell (scaleDense sd cfg (rows.map (embed keys))) i j) :=
-  ⟨fun rows hu => scale_scalar_dense_agree' sd cfg rows hu,
+  ⟨fun rows hs => scale_scalar_dense_agree' sd cfg rows hs,
    fun rows first keys i j k v hf h0 hk hv => scale_sparse_dense_agree' sd cfg rows first keys i j k v hf h0 hk hv⟩
 
 /-! ## the fitting window -/
@@ -368,5 +372,108 @@ theorem collection_pipelines (sd : List Rat → Rat) (cfg : Cfg) (stats : List S
     pipe (scaleCtxs sd) [cfg] (.ok c) = scaleCtxs sd cfg c ∧
     pipe imputeF (stats.map (fun st => (st, ind, u))) (.ok c) = .ok (envImpute stats ind u c) :=
   ⟨pipe_scale sd cfg c, pipe_impute stats ind u c⟩
+
+/-! ## phase 3 — mixed-type columns, the empty window, targets, argument glue, sparse completion -/
+
+/-- `Scale(1, 2)` on the mixed scalar stream `'x', 3` scales the 3 (the scalar path fits whatever the first context is),
+the dense one-feature stream `('x',), (3,)` leaves it (column 0 is not a potential key): the hypothesis of
+`scale_containers_agree` is necessary.  Mixed columns are outside the property's quantifier; replayed on the code. -/
+theorem scale_scalar_dense_mixed_counterexample :
+    scaleScalar (fun _ => 1) ⟨.num 1, .num 2, none⟩ [.str "x", .num 3] = [.str "x", .num 8] ∧
+    scaleDense (fun _ => 1) ⟨.num 1, .num 2, none⟩ [[.str "x"], [.num 3]] = [[.str "x"], [.num 3]] :=
+  scalar_dense_mixed_witness
+
+/-- a window holding a string (mixed or string column): `_get_shift_and_scale` succeeds exactly when nothing has to
+look at the values — given numeric shift with a given numeric scale, or with `iqr` of at most one non-missing value
+(scale 1) — and then returns exactly those parameters; every other configuration raises `TypeError` inside and yields
+no parameters (the column is left alone).  No totalised default: the guard is an `iff`. -/
+theorem fit_string_window (sd : List Rat → Rat) (cfg : Cfg) (w : List Val) (h : w.any Val.isStr = true) (s f : Rat) :
+    fit sd cfg w = some (s, f) ↔
+      ∃ a, cfg.shift = .num a ∧ s = a ∧
+        ((∃ b, cfg.scale = .num b ∧ f = b) ∨ (cfg.scale = .iqr ∧ presentCount w ≤ 1 ∧ f = 1)) :=
+  fit_string_window' sd cfg w h s f
+
+example : fit (fun _ => 1) ⟨.num 2, .iqr, none⟩ [.nil, .str "x"] = some (2, 1) := by decide
+example : fit (fun _ => 1) ⟨.num 2, .iqr, none⟩ [.num 3, .str "x"] = none := by decide
+
+/-- the cell formula of the dense path with NO hypothesis on types: every cell is `applyOpt` of the parameters fitted on
+its window column if the first context allows the column, else untouched — so in a mixed column numbers are scaled
+(by `fit_string_window`'s parameters), strings/None/nan never -/
+theorem scale_cell_formula (sd : List Rat → Rat) (cfg : Cfg) (rows : List (List Val)) (first : List Val)
+    (hfirst : rows.head? = some first) (i k : Nat) :
+    denseCell (scaleDense sd cfg rows) i k =
+      (denseCell rows i k).map (applyOpt (if potDense first k then fit sd cfg (col k (window cfg.usingN rows)) else none)) :=
+  scaleDense_cell sd cfg rows first hfirst i k
+
+/-- `using = 0` on dense contexts (outside the property's quantifier, modelled exactly): with two or more potential keys
+nothing is fitted and the interactions pass unchanged; otherwise, and for every `using ≠ 0`, `scaleDense` applies -/
+theorem scale_dense_zero_window (sd : List Rat → Rat) (cfg : Cfg) :
+    (∀ rows, cfg.usingN ≠ some 0 → scaleDenseFull sd cfg rows = scaleDense sd cfg rows) ∧
+    (∀ first rest, cfg.usingN = some 0 →
+      scaleDenseFull sd cfg (first :: rest) = if 2 ≤ potCount first then first :: rest else scaleDense sd cfg (first :: rest)) :=
+  ⟨fun rows hu => scaleDenseFull_eq' sd cfg rows hu, fun first rest hu => scaleDenseFull_zero' sd cfg first rest hu⟩
+
+/-- the `target` of a `Scale` object only gates the sparse-shift rejection: for target "context" the filter is
+`scaleCtxs`; for any other target the context is scaled all the same, sparse contexts without the rejection; and with
+shift 0 the two coincide -/
+theorem scale_target_semantics (sd : List Rat → Rat) (sc : ScaleCfg) (c : Ctxs) :
+    (sc.target = "context" → scaleFilter sd sc c = scaleCtxs sd sc.cfg c) ∧
+    (sc.target ≠ "context" → scaleFilter sd sc c = match c with
+      | .sparse rows => .ok (.sparse (scaleSparseRows sd sc.cfg rows))
+      | c => scaleCtxs sd sc.cfg c) ∧
+    (∀ rows, sc.cfg.shift = .num 0 → scaleSparse sd sc.cfg rows = .ok (scaleSparseRows sd sc.cfg rows)) :=
+  ⟨scaleFilter_context' sd sc c, scaleFilter_other' sd sc c, fun rows h0 => scaleSparse_eq_rows' sd sc.cfg rows h0⟩
+
+/-- `std` under a square-root routine with relative error `δ`, complete: the code's guard `sd < 1e-6` is exactly
+`var·(1+δ) < 1e-12`, below it the scale is 1, otherwise `f ≥ 0` and `f²·var·(1+δ) = 1` -/
+theorem std_scale_within_cases (sd : List Rat → Rat) (xs : List Rat) (s f δ : Rat) (hx : SqrtWithin sd xs δ)
+    (h : ScaleStat sd .std xs s f) :
+    2 ≤ xs.length ∧
+    ((variance xs * (1 + δ) < 1 / 1000000000000 ∧ f = 1) ∨
+     (1 / 1000000000000 ≤ variance xs * (1 + δ) ∧ 0 ≤ f ∧ f * f * variance xs * (1 + δ) = 1)) :=
+  std_scale_within_cases' sd xs s f δ hx h
+
+example : SqrtWithin (fun _ => 2) [1, 3, 5] 0 := by
+  refine ⟨by norm_num, ?_⟩
+  simp [variance, sumL]
+  norm_num
+
+/-- `Environments.scale(shift, scale, targets, using)`: one `Scale` per target, each configured with exactly the
+arguments — a given `0` shift, `0` scale or `using=0` is kept (nothing is replaced through truthiness) — and an omitted
+keyword takes the documented default (`"min"`, `"minmax"`, `"context"`, `None`) -/
+theorem env_scale_config (a : ScaleArgs) :
+    (∀ sh sc ts u, envScaleFilters ⟨some sh, some sc, some ts, some u⟩ = ts.map (fun t => ⟨⟨sh, sc, u⟩, t⟩)) ∧
+    envScaleFilters ⟨none, none, none, none⟩ = [⟨⟨.min, .minmax, none⟩, "context"⟩] ∧
+    (envScaleFilters a).map (·.target) = (match a.targets with | some ts => ts | none => ["context"]) ∧
+    (∀ k ∈ envScaleFilters a,
+      (∀ sh, a.shift = some sh → k.cfg.shift = sh) ∧ (a.shift = none → k.cfg.shift = .min) ∧
+      (∀ sc, a.scale = some sc → k.cfg.scale = sc) ∧ (a.scale = none → k.cfg.scale = .minmax) ∧
+      (∀ u, a.usingA = some u → k.cfg.usingN = u) ∧ (a.usingA = none → k.cfg.usingN = none)) :=
+  ⟨envScaleFilters_given, envScaleFilters_defaults, envScaleFilters_targets a, envScaleFilters_fields a⟩
+
+example : envScaleFilters ⟨some (.num 0), some (.num 0), some ["context", "context"], some (some 0)⟩ =
+    [⟨⟨.num 0, .num 0, some 0⟩, "context"⟩, ⟨⟨.num 0, .num 0, some 0⟩, "context"⟩] := rfl
+
+/-- `Environments.impute(stats, indicator, using)`: one `Impute` per statistic in order, `indicator=False` and
+`using=0` kept, defaults `"mean"`, `True`, `None` -/
+theorem env_impute_config (a : ImputeArgs) :
+    (∀ ss b u, envImputeFilters ⟨some ss, some b, some u⟩ = ss.map (fun st => (st, b, u))) ∧
+    envImputeFilters ⟨none, none, none⟩ = [(.mean, true, none)] ∧
+    (∀ k ∈ envImputeFilters a,
+      (∀ b, a.indicator = some b → k.2.1 = b) ∧ (a.indicator = none → k.2.1 = true) ∧
+      (∀ u, a.usingA = some u → k.2.2 = u) ∧ (a.usingA = none → k.2.2 = none)) :=
+  ⟨envImputeFilters_given, envImputeFilters_defaults, envImputeFilters_fields a⟩
+
+/-- what `Environments(env).scale(**args)` does to an environment's contexts is the pipeline of the configured filters -/
+theorem env_scale_behaviour (sd : List Rat → Rat) (a : ScaleArgs) (c : Ctxs) :
+    envScale sd a c = pipe (scaleFilter sd) (envScaleFilters a) (.ok c) := envScale_eq_pipe sd a c
+
+/-- the sparse default-zero completion: Impute's window column of a sparse key (present values, then one 0 per context
+lacking the key) is a permutation of the dense-embedding column (0 in place), and mean, median and the set of modes over
+the non-missing values are the same for both — for every window, keys missing in any rows -/
+theorem sparse_completion (st : Stat) (k : String) (win : List SCtx) :
+    (sparseCol k win).Perm (win.map (getD0 k)) ∧
+    (∀ m, ImpStat st (present (sparseCol k win)) m ↔ ImpStat st (present (win.map (getD0 k))) m) :=
+  ⟨sparseCol_perm k win, sparse_completion_stat' st k win⟩
 
 end Coba.C11
